@@ -39,7 +39,7 @@ class Analysis:
         return self.get(fn)[0]
 
     def get(self, fn, entry_facts=()):
-        k = (fn.qualname, tuple(sorted(map(repr, entry_facts))))
+        k = (fn.qualname, getattr(fn, "variant", ""), tuple(sorted(map(repr, entry_facts))))
         if k not in self._cache:
             g = CFG(fn.node)
             res = norm.Resolver(self.p, fn.module, fn.cls)
@@ -456,3 +456,51 @@ def inline_private(ctx, cls, exclude=()):
         m = ctx.program.lookup_method(cls, name)
         return m.node if m is not None else None
     return resolve
+
+
+def expand_expr_helpers(ctx, fn):
+    """FuncInfo of `fn` with calls to *expression helpers* replaced by the expression they return: `self._h(a, b)` where `_h` is a
+    private method of the class hierarchy whose body is a single `return <expr>` (parameters are substituted by the arguments, which
+    must be plain reads so that nothing is duplicated or reordered). Positions of the inserted nodes are those of the call. Rules that
+    look at what a method *does* (allocations, sends, stores) then see the same thing whether or not such a helper was extracted."""
+    import copy
+    from ..core.index import FuncInfo
+    cls = fn.cls
+    if cls is None:
+        return fn
+    changed = []
+
+    class T(ast.NodeTransformer):
+        def visit_Call(self, node):
+            node = self.generic_visit(node)
+            f = node.func
+            if not (isinstance(f, ast.Attribute) and isinstance(f.value, ast.Name) and f.value.id == "self" and not node.keywords
+                    and f.attr.startswith("_") and not f.attr.startswith("__")):
+                return node
+            m = ctx.program.lookup_method(cls, f.attr)
+            if m is None or m.node.decorator_list or not isinstance(m.node, ast.FunctionDef):
+                return node
+            a = m.node.args
+            if a.vararg or a.kwarg or a.kwonlyargs or a.defaults or a.posonlyargs:
+                return node
+            body = [s for s in m.node.body if not (isinstance(s, ast.Expr) and isinstance(s.value, ast.Constant))]
+            if not (len(body) == 1 and isinstance(body[0], ast.Return) and body[0].value is not None):
+                return node
+            params = [x.arg for x in a.args][1:]
+            if len(params) != len(node.args) or not all(_plain_read(x) or isinstance(x, ast.Constant) for x in node.args):
+                return node
+            if any(isinstance(x, (ast.Lambda, ast.Await, ast.Yield, ast.YieldFrom, ast.NamedExpr)) for x in ast.walk(body[0].value)):
+                return node
+            e = _Subst(dict(zip(params, node.args))).visit(ast.Expression(body=copy.deepcopy(body[0].value))).body
+            for x in ast.walk(e):
+                ast.copy_location(x, node)
+            changed.append(f.attr)
+            return e
+
+    new = T().visit(copy.deepcopy(fn.node))
+    if not changed:
+        return fn
+    ast.fix_missing_locations(new)
+    out = FuncInfo(fn.module, fn.cls, new, parent=fn.parent)
+    out.variant = "expr-helpers-expanded"
+    return out
